@@ -712,6 +712,38 @@ func shapeOfKind(kind string) interface{} {
 		b := []interface{}{a}
 		a["list"] = b
 		return b
+	case "errslice": // a slice of an interface type that has methods
+		return []error{errors.New("e1"), nil}
+	case "stringerslice":
+		return []fmt.Stringer{stringerValue{"s"}, nil}
+	case "ptrcycle": // a pointer that leads back to itself
+		var x interface{}
+		x = &x
+		return x
+	case "ptrptrmap":
+		m := map[string]int{"a": 1}
+		pm := &m
+		return &pm
+	case "namedptr": // a value of a defined pointer type: its method set is empty
+		return namedS6Ptr(&S6{X: 7})
+	case "nanmap": // NaN keys never equal themselves
+		return map[float64]string{math.NaN(): "n", 1: "a", 2: "b", math.NaN(): "m"}
+	case "nanifacemap":
+		return map[interface{}]interface{}{math.NaN(): "n", "a": 1, float32(math.NaN()): 2}
+	case "namedkeys": // keys of different defined types with the same value
+		return map[interface{}]string{levelA(1): "a", levelB(1): "b", int8(1): "c"}
+	case "dag60": // shared sub-values, sixty levels deep (no cycle)
+		var level interface{} = "x"
+		for i := 0; i < 60; i++ {
+			level = []interface{}{level, level}
+		}
+		return level
+	case "dagmap":
+		var level interface{} = 1
+		for i := 0; i < 40; i++ {
+			level = map[string]interface{}{"l": level, "r": level}
+		}
+		return level
 	case "strlong":
 		return strings.Repeat("ab,", 200000)
 	case "listlong":
@@ -866,6 +898,10 @@ func (c *Counter) Next() int       { c.N++; return c.N }
 func (c *Counter) Push() int       { c.Tags = append(c.Tags, "x"); return len(c.Tags) }
 func (c Counter) Peek() int        { return c.N }
 func (c *Counter) Reset() *Counter { c.N = 0; return c }
+
+type namedS6Ptr *S6
+type levelA int
+type levelB int
 
 type cycNode struct {
 	Name string
